@@ -67,7 +67,12 @@ def case(draw, tier):
         subs["F"] = {"params": ["TS[int]"], "names": ["x"], "out": "TS[int]", "ret": "f1", "stmts": [
             {"id": "f0", "op": "node", "ins": [{"arg": 0}], "out": "TS[int]", "fn": "sum", "log_inputs": False},
             {"id": "f1", "op": "node", "ins": ["f0"], "out": "TS[int]", "fn": "acc", "log_inputs": False}]}
-        script = [[0, [{"k": "D", "ops": [["set", k, k] for k in range(draw(st.integers(1, 4)))]}]]]
+        nk0 = draw(st.integers(1, 4))
+        # optionally ONE child of the first generation (not the one in the lowest slot) fails in its start: its element is negative
+        neg_key = draw(st.integers(1, nk0 - 1)) if nk0 >= 2 and draw(st.integers(0, 3)) == 0 else None
+        script = [[0, [{"k": "D", "ops": [["set", k, -5 if k == neg_key else k] for k in range(nk0)]}]]]
+        if neg_key is not None:
+            subs["F"]["stmts"][0]["throw"] = {"start_neg": True}
         for t in range(1, horizon):
             if draw(st.booleans()):
                 k = draw(st.integers(0, 4))
